@@ -181,6 +181,7 @@ def run(chk: Check, drv: Driver):
                 plan.append(calls)
             results = [[None] * len(c) for c in plan]
             tracer.events = []
+            chk.mark({"round": r, "threads": n_threads, "plan": [[(pool[k][0].text, pool[k][0].fs, b) for k, b in c] for c in plan]})
             barrier = threading.Barrier(n_threads)
 
             def worker(t):
